@@ -50,7 +50,9 @@ func hNewConn(packetSize int) (*Conn, *hConn) {
 		ctxCancel:       cancel,
 		tdsChannels:     map[int]*Channel{},
 		tdsChannelsLock: &sync.RWMutex{},
-		errCh:           make(chan error, 10),
+		// (NewConn uses capacity 10; a smaller queue only makes the reader goroutine
+		// park earlier once the transport keeps failing)
+		errCh: make(chan error, 3),
 	}
 	return tds, hc
 }
@@ -104,9 +106,10 @@ func hParseHeader(w []byte) hHeader {
 type hStream struct {
 	data   []byte
 	pos    int
-	end    int // 0: (0, io.EOF) forever; 1: (0, errHRead); 2: last chunk together with io.EOF
+	end    int // 0: (0, io.EOF) forever; 1: (0, errHRead); 2: last chunk together with io.EOF; 3: last chunk together with errHRead
 	reads  int
 	maxChunks int
+	pickChunks bool // chunk sizes case-split over a few values instead of symbolic
 }
 
 func (s *hStream) Read(p []byte) (int, error) {
@@ -127,7 +130,12 @@ func (s *hStream) Read(p []byte) (int, error) {
 	}
 	if s.reads <= s.maxChunks {
 		// the transport may hand over any non-empty part of what is available
-		c := vfInt("chunk", 1, 70000)
+		c := 0
+		if s.pickChunks {
+			c = []int{1, 3, 8, 70000}[vfPick("chunksel", 0, 3)]
+		} else {
+			c = vfInt("chunk", 1, 70000)
+		}
 		if c < n {
 			n = c
 		}
@@ -137,7 +145,30 @@ func (s *hStream) Read(p []byte) (int, error) {
 	if s.pos == len(s.data) && s.end == 2 {
 		return n, io.EOF
 	}
+	if s.pos == len(s.data) && s.end == 3 {
+		return n, errHRead
+	}
 	return n, nil
 }
 
 func errIOEOF() error { return io.EOF }
+
+// hPacketise encodes a response as one or two packets on the wire (independent
+// header encoder); ends[i] is the wire offset at which packet i is complete.
+func hPacketise(resp []byte, cut int) (wire []byte, ends []int) {
+	parts := [][]byte{resp}
+	if cut > 0 && cut < len(resp) {
+		parts = [][]byte{resp[:cut], resp[cut:]}
+	}
+	for i, p := range parts {
+		l := PacketHeaderSize + len(p)
+		st := byte(0)
+		if i == len(parts)-1 {
+			st = byte(TDS_BUFSTAT_EOM)
+		}
+		wire = append(wire, byte(TDS_BUF_RESPONSE), st, byte(l>>8), byte(l), 0, 0, 0, 0)
+		wire = append(wire, p...)
+		ends = append(ends, len(wire))
+	}
+	return
+}
